@@ -118,9 +118,11 @@ class Violation(Exception):
 class Maker:
     """Input factory + obligation sink.  mode: 'sym' | 'conc'."""
 
-    def __init__(self, mode, values=None):
+    def __init__(self, mode, values=None, rng=None):
         self.mode = mode
         self.values = values or {}
+        self.rng = rng            # concrete probing: draw missing inputs on demand
+        self.drawn = {}
         self.inputs = []        # (name, kind, info)
         self.obligations = []   # sym: (name, pc_len, term, key)
         self.failed = []        # conc: (name, key)
@@ -144,6 +146,8 @@ class Maker:
             if hi is not None:
                 symx.ctx().assume(v.t <= symx.lift(hi))
             return v
+        if name not in self.values and self.rng is not None:
+            self.values[name] = self.drawn[name] = _draw_real(self.rng, lo, hi, pos)
         return float(self.values.get(name, 1.0 if pos else 0.0))
 
     def pos(self, name, hi=None):
@@ -158,6 +162,13 @@ class Maker:
             if hi is not None:
                 symx.ctx().assume(v.t <= hi)
             return v
+        if name not in self.values and self.rng is not None:
+            v = self.rng.choice([0, 1, -1, 2, 3, -7, 100, -1000, 4096, 8192])
+            if lo is not None:
+                v = max(v, lo)
+            if hi is not None:
+                v = min(v, hi)
+            self.values[name] = self.drawn[name] = v
         return int(self.values.get(name, 0))
 
     def boolean(self, name):
@@ -165,6 +176,8 @@ class Maker:
             b = z3.Bool(name)
             self.inputs.append((name, 'bool', b))
             return SymBool(b)
+        if name not in self.values and self.rng is not None:
+            self.values[name] = self.drawn[name] = self.rng.random() < 0.5
         return bool(self.values.get(name, False))
 
     def angle(self, name, unit='deg'):
@@ -174,6 +187,9 @@ class Maker:
             _, _, cc, ss = symx.ctx().atoms[a.t.get_id()]
             self.inputs.append((name, 'angle', (a.t, cc, ss, unit)))
             return u.Quantity(a, getattr(u, unit), dtype=object)
+        if name not in self.values and self.rng is not None:
+            deg = self.rng.choice([0.0, 30.0, 90.0, 135.0, 200.0, -45.0, 270.0, 359.0, self.rng.uniform(-400, 400)])
+            self.values[name] = self.drawn[name] = deg * (math.pi / 180) / symx._UNIT_RAD[unit]
         return u.Quantity(float(self.values.get(name, 0.0)), getattr(u, unit))
 
     # ---- environment
@@ -268,6 +284,71 @@ def concrete_inputs(inputs, model):
 # --------------------------------------------------------------------------
 # case execution
 # --------------------------------------------------------------------------
+def _draw_real(rng, lo, hi, pos):
+    """concrete probe values: small dyadics, pixel-edge alignments, large magnitudes"""
+    kind = rng.random()
+    if kind < 0.3:
+        v = rng.choice([0.0, 0.5, 1.0, 1.5, 2.0, 0.25, 3.0, 0.75, 4.5, 7.0]) * rng.choice([1, -1])
+    elif kind < 0.55:
+        v = rng.choice([0, 1, 3, 10, 1000, 3000, 5000, 8192, 10000]) * rng.choice([1, -1]) + 0.5 \
+            + rng.choice([1, -1]) * 2.0 ** (-rng.randint(2, 20))
+    elif kind < 0.8:
+        v = rng.uniform(-5, 5)
+    else:
+        v = rng.uniform(-1e4, 1e4)
+    if pos:
+        v = abs(v)
+        if v == 0:
+            v = 0.5
+    if lo is not None and v < lo:
+        v = lo + (abs(v) % max((hi - lo) if hi is not None else 1.0, 1e-9))
+    if hi is not None and v > hi:
+        v = hi - (abs(v) % max((hi - lo) if lo is not None else hi if hi > 0 else 1.0, 1e-9))
+        if pos and v <= 0:
+            v = hi / 2
+    return float(v)
+
+
+def rescue(res, prop, h, seed=0, budget_s=25.0, max_probes=400):
+    """The symbolic engine met a construct it cannot encode (so no verdict can be claimed for
+    this case).  To still *detect* a broken property, the harness is run concretely against
+    the real library on probe inputs; a failing obligation is a replayed violation.  A clean
+    rescue changes nothing: the case stays inconclusive."""
+    import random
+    rng = random.Random(1234 + seed)
+    t0 = time.time()
+    n = 0
+    while n < max_probes and time.time() - t0 < budget_s:
+        n += 1
+        m = Maker('conc', {}, rng=rng)
+        symx.uninstall_quantity_patch()
+        exc = None
+        try:
+            try:
+                h(m)
+            except symx.PathAbort:
+                continue
+            except Exception as e:  # noqa
+                exc = f'{type(e).__name__}: {e}'
+                m.failed.append(('unexpected-exception', None))
+        finally:
+            m.unshim()
+            symx.install_quantity_patch()
+        if m.failed:
+            fnames = [f for f, _ in m.failed]
+            entry = {'obligation': fnames[0], 'replayed_failures': fnames, 'inputs': dict(m.values),
+                     'exception': exc, 'case': res['name'], 'found_by': 'concrete rescue probe'}
+            kf = KNOWN.match(prop, {k for _, k in m.failed}, fnames, res['name'])
+            if kf is not None:
+                entry['known'] = kf
+                res['known'].append(entry)
+            else:
+                entry['replay'] = _replay_path(prop, res['name'], dict(m.values), fnames[0])
+                res['violations'].append(entry)
+            break
+    res.setdefault('notes', []).append(f'concrete rescue: {n} probes')
+
+
 class CaseResult(dict):
     pass
 
@@ -389,6 +470,7 @@ def run_case(prop, name, h, timeout_ms=30000, max_paths=400, allow_exceptions=()
         paths, complete = symx.explore(wrapped, max_paths=max_paths)
     except Inconclusive as e:
         res['inconclusive'].append(f'engine: {e}')
+        rescue(res, prop, h)
         res['wall_s'] = round(time.time() - t0, 3)
         res['stats'] = solve.STATS.as_dict()
         return res
